@@ -372,6 +372,7 @@ Plan gen_plan(const Profile &pf, uint64_t seed) {
     for (auto &o : P.ops) if (m.expect(o) == 0) m.apply(o);
     Rng rr = rng_derive(seed, "reads");
     gen_reads(pf, P, m, rr);
+    if (pf.misuse && r.chance(0.5)) P.variant_flags = (int) r.range(20, 160);      // number of raw-layer calls after the reader / copy phase
     if (pf.misuse) {
         // ---- misuse profile: perturb the conforming program (ids 0..65535, duplicates, wrong types, windows outside, zero / huge lengths, extreme parameters)
         Rng x = rng_derive(seed, "misuse");
